@@ -1,7 +1,7 @@
 (* run_cmd : the single entry point of the extracted model. A command is
    (L (A code :: args)); decoding and encoding are Gallina. *)
 From Coq Require Import List ZArith NArith Bool.
-From BS Require Import Base.Sexp Model.Registry.
+From BS Require Import Base.Sexp Base.Types Base.Reader Model.Registry Model.SmartQuotes.
 Import ListNotations.
 Open Scope Z_scope.
 
@@ -39,12 +39,31 @@ Definition cmd_c20_construct (args : list sexp) : sexp :=
   | _ => A (-1)
   end.
 
+(* ---- C19 ---- *)
+Definition g_mode (s : sexp) : sq_mode :=
+  match gZ s with 0 => SqNone | 1 => SqAscii | 2 => SqXml | 3 => SqHtml | _ => SqOther end.
+(* (190 mode carrier bytes) -> bytes *)
+Definition cmd_c19_convert (args : list sexp) : sexp :=
+  match args with
+  | m :: c :: bs :: _ => sstr (convert_smart_quotes (g_mode m) (gstr c) (gstr bs))
+  | _ => A (-1)
+  end.
+(* (191 bytes) -> bytes *)
+Definition cmd_c19_detwingle (args : list sexp) : sexp :=
+  match args with bs :: _ => sstr (detwingle (gstr bs)) | _ => A (-1) end.
+(* (192 text) -> text as the parser reads it *)
+Definition cmd_read_text (args : list sexp) : sexp :=
+  match args with t :: _ => sstr (read_text (gstr t)) | _ => A (-1) end.
+
 Definition run_cmd (c : sexp) : sexp :=
   match c with
   | L (A code :: args) =>
       match code with
       | 20 => cmd_c20_lookup args
       | 21 => cmd_c20_construct args
+      | 190 => cmd_c19_convert args
+      | 191 => cmd_c19_detwingle args
+      | 192 => cmd_read_text args
       | _ => A (-2)
       end
   | _ => A (-3)
